@@ -232,9 +232,33 @@ def layer_a_cells(tier):
     return cells
 
 
+HAZARD = "hazard=f32-multicol-exhaust"
+
+
+def krylov_dim(fam, n):
+    """Krylov dimension a generic start vector sees (deterministic per family and size, see `spectrum`)"""
+    if fam == "rankdef":
+        return min(n, max(1, n // 2) + 1)
+    if fam == "repeated":
+        return min(n, max(2, (n + 2) // 3) if n > 2 else 2)
+    return n
+
+
+def hazard_tag(fam, n, dt, many, num_iter):
+    """The known float32 defect (open: line): several columns (batch members / start vectors) in one call, a Krylov
+    space smaller than the number of iterations, float32.  The loop only stops when ALL columns have beta <= 1e-6
+    (absolute); a column whose residual is exactly 0 next to a column whose rounding noise exceeds 1e-6 is divided by
+    zero.  All defining conditions are deterministic functions of the cell, so they are part of the cell id."""
+    if dt == "f32" and fam in ("rankdef", "repeated") and many and min(num_iter, n) > krylov_dim(fam, n):
+        return "/" + HAZARD
+    return ""
+
+
 def cell_id(fam, n, batch, init, mk, dt):
-    cols = "multi" if (batch or init in ("multi", "random2")) else "single"
-    return f"C09/lanczos/{fam}/n={n}/b={'x'.join(map(str, batch)) or '-'}/init={init}/cols={cols}/mi={mk}/{dt}"
+    many = bool(batch) or init in ("multi", "random2")
+    cols = "many" if many else "one"
+    return (f"C09/lanczos/{fam}/n={n}/b={'x'.join(map(str, batch)) or '-'}/init={init}/cols={cols}/mi={mk}/{dt}"
+            + hazard_tag(fam, n, dt, many, budgets(n)[mk]))
 
 
 def run_lanczos_cell(chk, seed, fam, n, batch, init, mk, dt, corr_lines, rep=0):
@@ -572,6 +596,8 @@ def run_ops(chk, seed, post_lines):
                 if name == "Dense[indef]" and (what != "root" and what != "diag"):
                     continue
                 cid = f"C09/post/{what}/{name}/n={n}/b={'x'.join(map(str, batch)) or '-'}/budget={budget}/{dt}"
+                if name.startswith("Dense[r"):
+                    cid += hazard_tag(name[6:-1], n, dt, bool(batch) or what == "root_inv[probes]", m_max)
                 payload = {"kind": "ops", "seed": seed, "cell": cid}
                 g = gen_for(seed, cid)
                 rand_seed = int(torch.randint(0, 2 ** 31 - 1, (1,), generator=g))
